@@ -580,9 +580,11 @@ func (s *session) handleLogon(msg *Message) error {
 		if getErr == nil {
 			if targetWantsNextSeqNumToBe != nextSenderMsgNumAtLogonReceived {
 				if !s.DisableMessagePersist {
-					seqResetErr := s.generateSequenceReset(targetWantsNextSeqNumToBe, nextSenderMsgNumAtLogonReceived+1, *msg)
-					if seqResetErr != nil {
-						return seqResetErr
+					if targetWantsNextSeqNumToBe < nextSenderMsgNumAtLogonReceived {
+						// The counterparty has not seen everything we sent: send it again.
+						if resendErr := (inSession{}).resendMessages(s, targetWantsNextSeqNumToBe, nextSenderMsgNumAtLogonReceived-1, *msg); resendErr != nil {
+							return resendErr
+						}
 					}
 				} else {
 					return targetTooHigh{ReceivedTarget: targetWantsNextSeqNumToBe, ExpectedTarget: nextSenderMsgNumAtLogonReceived}
